@@ -128,3 +128,56 @@ def gen_inventory(r, n_classes=None, shape=None, nested=False, relative=0, n_nod
     if cfg:
         config.update(cfg)
     return {"op": "inventory", "config": config, "files": files + node_files}
+
+
+SEGS = ["a", "b", "c.d", "_u", "x-1", "init", ".h", "e"]
+NAMES = ["a", "b", "c.d", "_u", "init", ".h", "foo.bar", "a.b.c", "init.x", "e"]
+
+
+def gen_tree(r, kind_root, n_files, max_depth=3, symlinks=True, strays=True, dir_yml=True):
+    """Random file tree below classes/ or nodes/: list of protocol file entries whose content
+    records the file's own path as a parameter."""
+    files = []
+    used = set()
+    dirs = [[]]
+    for _ in range(n_files):
+        d = list(r.choice(dirs))
+        if len(d) < max_depth and r.chance(50, 100):
+            d = d + [r.choice(SEGS)]
+            dirs.append(d)
+        name = r.choice(NAMES)
+        ext = r.choice(["yml", "yml", "yaml"])
+        p = "/".join([kind_root] + d + [name + "." + ext])
+        if p in used:
+            continue
+        used.add(p)
+        files.append({"path": p, "content": {"parameters": G.M([["marker", p], ["where", [p]]])}})
+    if strays:
+        for _ in range(r.range(0, 3)):
+            d = list(r.choice(dirs))
+            p = "/".join([kind_root] + d + [r.choice(["README", "notes.txt", "x.yml.bak", "y.json", ".yml", "noext", "z.YML", "trail."])])
+            if p not in used:
+                used.add(p)
+                files.append({"path": p, "raw": "just: text\n"})
+    if dir_yml and r.chance(25, 100):
+        d = list(r.choice(dirs))
+        p = "/".join([kind_root] + d + [r.choice(["dir.yml", "sub.yaml"])])
+        if p not in used and not any(u.startswith(p + "/") or u == p for u in used):
+            used.add(p)
+            files.append({"path": p, "kind": "dir"})
+    if symlinks and r.chance(35, 100) and len(dirs) > 1:
+        # symlink to a directory elsewhere in the tree (relative target), or to a file
+        src = r.choice([d for d in dirs if d])
+        link_parent = []
+        ln = "/".join([kind_root] + link_parent + ["lnk%d" % r.below(3)])
+        if ln not in used and not any(u.startswith(ln + "/") for u in used):
+            used.add(ln)
+            files.append({"path": ln, "kind": "symlink", "target": "/".join(src)})
+    if symlinks and r.chance(25, 100) and files:
+        tgt = r.choice([f for f in files if "content" in f] or [None])
+        if tgt is not None:
+            ln = kind_root + "/flink%d.yml" % r.below(3)
+            if ln not in used:
+                used.add(ln)
+                files.append({"path": ln, "kind": "symlink", "target": tgt["path"][len(kind_root) + 1:]})
+    return files
